@@ -21,7 +21,7 @@ from symex import show, walk
 EXPLANATION = __doc__
 TRUSTED = ["rustc / extractor", "md5, hmac, sha1 crates; RC4 (C09)", "slice::chunks(n) yields consecutive n-byte chunks in order (printing order)"]
 NOT_DECIDED = ["distinctness of the challenged coordinates", "RC4 / HMAC / MD5 internals"]
-FLOORS = {"cell-offset": 2, "printing-order": 1, "round-guard": 3, "transcript": 4, "server-check": 5, "accessor": 3}
+FLOORS = {"cell-offset": 2, "printing-order": 1, "round-guard": 3, "transcript": 4, "server-check": 5, "accessor": 3, "distinct": 4}
 MC = "matrix_card::MatrixCard"
 MV = "matrix_card::MatrixCardVerifier"
 
@@ -118,6 +118,8 @@ def check(ctx, rep):
                 work.extend(gse.phi_inputs.get((x[2], x[3]), {}).values())
             elif x[0] == "after" and util.is_call(x[1]) and x[1][1].endswith("::index_mut"):
                 work.append(x[3])
+            elif x[0] == "upd":
+                work.append(x[1])
             else:
                 origins.add(x)
         good = len(origins) == 1
@@ -159,15 +161,18 @@ def check(ctx, rep):
         tup = strip(v[4][0])
         if tup[0] == "agg" and tup[1] == "tuple" and len(tup[4]) == 2:
             cterm = None
+            ridx_t = None
             for t in walk(tup):
                 if util.is_call(t) and t[1].endswith("::index"):
-                    cterm = t
+                    cterm, ridx_t = t, t[2][1]
+                elif t[0] == "index" and t[1] == vf("coords"):
+                    cterm, ridx_t = t, t[2]
             if cterm is not None:
                 env2 = dict(env)
                 env2[cterm] = "c"
                 x = arith.norm(tup[4][0], env2)
                 y = arith.norm(tup[4][1], env2)
-                ridx = arith.norm(cterm[2][1], env2)
+                ridx = arith.norm(ridx_t, env2)
                 good = x == ("rem", S("c"), S("w")) and y == ("Div", S("c"), S("w")) and ridx == S("round")
                 hg = None
                 for bb, d, f_t, t_t in util.bool_switches(se):
@@ -178,6 +183,10 @@ def check(ctx, rep):
                         hg = (bb, t_t)
                 good = good and hg is not None and cfg.must_pass_edge(body, hg, somes[0][0])
     rep.check(good, "round-guard", fn, "decode", "c = coordinates[round]; x = c mod width, y = c / width; y >= height => None", "coordinate decoding is not (c mod width, c / width) with rows outside the card refused", body.loc())
+    # ---------------- (e) distinct coordinates: the selection is the draw-without-replacement scheme
+    from rules import algos
+
+    algos.generate_coordinates_rule(ctx, rep, "distinct")
     # ---------------- (c) transcripts
     r = canon(ctx, nse, nse.ret)
     hm = rc = None
